@@ -244,6 +244,11 @@ func c13Job(raw json.RawMessage) (any, error) {
 	addRoutes := func(r *Router, name string) {
 		r.Handle("/x", hv.Route("hx:"+name), nil, "GET")
 		r.Handle("/{p}", hv.Route("hp:"+name), nil, "GET")
+		// routes whose parameter has the name a matcher captures under ({sub}.a.com): trying and abandoning such a
+		// branch must not cost the request the matcher's parameter
+		r.Handle(`/{sub:\d+}/y/a`, hv.Route("hya:"+name), nil, "GET")
+		r.Handle(`/{sub:\d+}/y/c`, hv.Route("hyc:"+name), nil, "GET")
+		r.Handle("/{k}/y/b", hv.Route("hyb:"+name), nil, "GET")
 	}
 	for _, o := range it.Ops {
 		switch o.K {
@@ -326,9 +331,12 @@ func c13Job(raw json.RawMessage) (any, error) {
 	table := ref.NewTable(nil, false)
 	table.Handle("/x", "hx", nil, "GET")
 	table.Handle("/{p}", "hp", nil, "GET")
+	table.Handle(`/{sub:\d+}/y/a`, "hya", nil, "GET")
+	table.Handle(`/{sub:\d+}/y/c`, "hyc", nil, "GET")
+	table.Handle("/{k}/y/b", "hyb", nil, "GET")
 	trail := func(n int) string { return strings.TrimSuffix(strings.Repeat("A,", n), ",") }
 	for _, host := range []string{"a.com", "b.com", "s.a.com", "A.COM:80"} {
-		for _, path := range []string{"/x", "/v1/x", "/v2/x", "/v1", "/v1/v1/x", "/zz", "zz" /* no route of any router: a 404 inside the winning router */} {
+		for _, path := range []string{"/x", "/v1/x", "/v2/x", "/v1", "/v1/v1/x", "/zz", "zz" /* no route of any router: a 404 inside the winning router */, "/2/y/b", "/2/y/a"} {
 			for _, acc := range []string{"", "application/json;version=1", "application/json;version=2", ";;"} {
 				for _, method := range []string{"GET", "POST", "OPTIONS", "GET+raw", "TRACE"} {
 					q := hv.Req{Method: method, Path: path, Host: host}
@@ -378,7 +386,7 @@ func c13Job(raw json.RawMessage) (any, error) {
 							}
 							switch {
 							case method == "GET":
-								hid, st = map[string]string{"/x": "hx:", "/{p}": "hp:"}[oc.Pattern]+win.name, 200
+								hid, st = map[string]string{"/x": "hx:", "/{p}": "hp:", `/{sub:\d+}/y/a`: "hya:", `/{sub:\d+}/y/c`: "hyc:", "/{k}/y/b": "hyb:"}[oc.Pattern]+win.name, 200
 							case method == "OPTIONS":
 								hid, st = "OPT", 200
 							default:
